@@ -97,11 +97,18 @@ class LocalUniverse:
         self.next_plan = None
         H.W.make_backend_override = self.make
         H.W.after_run = self.after
+        H.W.live_renew = self.renew
 
     def make(self):
         self.fs = self.next_plan or fsseam.FS(order_rng=None)
         self.next_plan = None
         return fsseam.make_local(self.root, self.fs)
+
+    def renew(self, backend):
+        # next command of a long-lived process on its existing Local object
+        self.fs = self.next_plan or fsseam.FS(order_rng=None)
+        self.next_plan = None
+        CTX.fs = self.fs
 
     def after(self, r):
         CTX.fs = None
@@ -155,10 +162,13 @@ def run_victim(H, victim, profile):
     """-> (ProcResult or None, description of what the victim touches)"""
     W = H.W
     u = victim['u']
+    live = u in H.live_users      # the victim and what follows run in one long-lived process of u
+    if live:
+        H.probe('victim_in_live_process')
     if victim['op'] == 'snapshot':
         d, files = H.materialize(victim)
         H.set_clock(victim)
-        r = W.snapshot(H.clients[u], [d], H.opts, profile=profile)
+        r = W.snapshot(H.clients[u], [d], H.opts, profile=profile, live=live)
         return r, {'files': files}
     if victim['op'] == 'delete':
         mine = H.live(u)
@@ -169,9 +179,9 @@ def run_victim(H, victim, profile):
             s = mine[k % len(mine)]
             if s not in victims:
                 victims.append(s)
-        r = W.delete(H.clients[u], [s.name for s in victims], H.opts, profile=profile)
+        r = W.delete(H.clients[u], [s.name for s in victims], H.opts, profile=profile, live=live)
         return r, {'victims': victims}
-    r = W.clean(H.clients[u], H.opts, profile=profile)
+    r = W.clean(H.clients[u], H.opts, profile=profile, live=live)
     return r, {}
 
 
@@ -230,14 +240,15 @@ def evaluate(H, case, victim, r, info, fault, before_objs):
         return
     # ---- the repository stays usable: list, new snapshot, clean
     seq = H.opts
-    rl = W.list_snapshots(H.clients[u], seq)
+    live = u in H.live_users      # same long-lived process as the victim (a new one if that crashed)
+    rl = W.list_snapshots(H.clients[u], seq, live=live)
     if not rl.ok:
         H.flag('unusable-after-fault', f'after {fault}: list-snapshots fails: {rl.outcome()} {rl.exc or rl.hang!r}', step='ls', **sig)
         return
     fop = {'op': 'snapshot', 'u': u, 'files': case['follow']['files'], 'at': 2 * 10**6, 'mt': case['follow']['mt'], 'note': None, 'dir': 'follow'}
     d, files = H.materialize(fop)
     H.set_clock(fop)
-    rs = W.snapshot(H.clients[u], [d], seq)
+    rs = W.snapshot(H.clients[u], [d], seq, live=live)
     if not rs.ok:
         H.flag('unusable-after-fault', f'after {fault}: a new snapshot fails: {rs.outcome()} {rs.exc or rs.hang!r}', step='snapshot', **sig)
         return
@@ -245,7 +256,7 @@ def evaluate(H, case, victim, r, info, fault, before_objs):
     sm.ts = rs.value['data']['utc_timestamp']
     H.snaps.append(sm)
     n_before = len([k for k in W.state.objects if k.startswith('data/')])
-    rc = W.clean(H.clients[u], seq)
+    rc = W.clean(H.clients[u], seq, live=live)
     if not rc.ok:
         H.flag('unusable-after-fault', f'after {fault}: clean fails: {rc.outcome()} {rc.exc or rc.hang!r}', step='clean', **sig)
         return
